@@ -444,3 +444,31 @@ ROOTS.append('rw_a')
 ROOTS.append('rw_c')
 ROOTS.append('rw_b')
 ROOTS.append('ir_a')
+
+
+@fp.fpy
+def nest_calls(x: fp.Real, n: fp.Real) -> fp.Real:
+    # two nests three blocks deep, each behind a statement whose call `inline` expands (a pure insertion
+    # in the outermost block): statements two and three blocks down have ancestors that shift while
+    # nothing changes next to them
+    a = leaf(x) + 301
+    i = 302.0
+    while i < n:
+        if a > 303:
+            j = 304.0
+            while j < 305:
+                a = a + 306
+                j = j + 307
+            a = a * 308
+        i = i + 309
+    b = mid(a) - 310
+    for _k in range(4):
+        if b > 311:
+            for _l in range(2):
+                b = b + 312
+                b = b * 313
+        b = b - 314
+    return leaf(b) + a
+
+
+ROOTS.append('nest_calls')
